@@ -221,6 +221,13 @@ def build(case, make_env=True, stream_override=None):
         stream.append((b.grid[gi % len(b.grid)] + off_us, "P", (i, val)))
     for (gi, off_us, values) in case.get("obs", []):
         stream.append((b.grid[gi % len(b.grid)] + off_us, "OBS", list(values)))
+    # events the environment adds by itself at construction (contract.make_events(): discontinuation at expiry);
+    # they are not in the transmitter's input but take part in delivery, so the timing model must know them
+    b.auto_events = []
+    for c in b.contracts:
+        for ev in c.make_events():
+            b.auto_events.append((us_of(datetime(ev.time.year, ev.time.month, ev.time.day, ev.time.hour, ev.time.minute,
+                                                 ev.time.second, ev.time.microsecond)), "XDISC", ev.contract.symbol))
     b.base_stream = stream
     b.stream = list(stream_override) if stream_override is not None else stream
     if make_env:
@@ -308,7 +315,7 @@ class Timing:
         self.grid = b.grid
         self.latency = b.latency_us
         self.events = []       # (time, insertion index, kind, payload, slot index, latent)
-        stream = list(b.stream) + list(extra_events)
+        stream = list(b.stream) + list(getattr(b, "auto_events", [])) + list(extra_events)
         for idx, (t, kind, payload) in enumerate(stream):
             if t > self.grid[-1]:
                 continue
